@@ -712,6 +712,40 @@ Eval(e, env, log) ==
             LET r == Eval(e[2], env, log)
                 f == e[3]
             IN IF IsErr(r.v) THEN r
+               \* a method of a yaqlized host object (the harness's probe object `hm` returns its positional arguments followed by
+               \* the named ones a, b, note): arguments are evaluated once each, positional ones first, then named ones as written
+               ELSE IF r.v[1] = "o" /\ f = "hm" THEN
+                    LET a == EvalSeq(e[4], env, r.log, <<>>)
+                    IN IF IsErr(a.v) THEN a
+                       ELSE LET k == EvalKws(e[5], env, a.log, <<>>)
+                                HostKw(n) == LET js == {j \in 1..Len(k.v[2]) : k.v[2][j][1][2] = n}
+                                             IN IF js = {} THEN <<>> ELSE <<k.v[2][CHOOSE j \in js : TRUE][2]>>
+                            IN IF IsErr(k.v) THEN k ELSE R(L(a.v[2] \o HostKw("a") \o HostKw("b") \o HostKw("note")), k.log)
+               \* generate(...) consumed through take/first: predicate, selector and producer run only as far as elements are taken -
+               \* the producer is not run after the last element handed out
+               ELSE IF f \in {"take", "first"} /\ e[2][1] = "call" /\ e[2][2] = "generate" /\ Len(e[2][3]) \in {3, 4} /\ e[2][4] = <<>>
+                       /\ ((f = "first" /\ e[4] = <<>>) \/ (f = "take" /\ Len(e[4]) = 1 /\ e[4][1][1] = "const" /\ e[4][1][2][1] = "i" /\ e[4][1][2][2] >= 0)) THEN
+                    LET ge == e[2]
+                        i0 == Eval(ge[3][1], env, log)
+                        pred == <<"lam", ge[3][2], env>>
+                        prod == <<"lam", ge[3][3], env>>
+                        want == IF f = "first" THEN 1 ELSE e[4][1][2][2]
+                        RECURSIVE LG(_, _, _, _)
+                        LG(x, lg, acc, fuel) ==
+                            IF Len(acc) = want THEN R(L(acc), lg)
+                            ELSE IF fuel = 0 THEN R(<<"e", "endless">>, lg)
+                            ELSE LET c == Apply(pred, <<x>>, lg)
+                                 IN IF IsErr(c.v) THEN c
+                                    ELSE IF ~Truthy(c.v) THEN R(L(acc), c.log)
+                                    ELSE LET y == IF Len(ge[3]) = 4 THEN Apply(<<"lam", ge[3][4], env>>, <<x>>, c.log) ELSE R(x, c.log)
+                                         IN IF IsErr(y.v) THEN y
+                                            ELSE IF Len(acc) + 1 = want THEN R(L(Append(acc, y.v)), y.log)
+                                            ELSE LET nx == Apply(prod, <<x>>, y.log)
+                                                 IN IF IsErr(nx.v) THEN nx ELSE LG(nx.v, nx.log, Append(acc, y.v), fuel - 1)
+                        t == IF IsErr(i0.v) THEN i0 ELSE LG(i0.v, i0.log, <<>>, 40)
+                    IN IF IsErr(t.v) THEN t
+                       ELSE IF f = "take" THEN t
+                       ELSE IF t.v[2] # <<>> THEN R(t.v[2][1], t.log) ELSE R(ErrV, t.log)
                \* a lazy select/where consumed through take/limit/first: the lambda runs only for the elements consumed
                ELSE IF f \in {"take", "limit", "first"} /\ e[2][1] = "mcall" /\ e[2][3] \in {"select", "where"} /\ Len(e[2][4]) = 1
                        /\ (f = "first" \/ (Len(e[4]) = 1 /\ e[4][1][1] = "const" /\ e[4][1][2][1] = "i" /\ e[4][1][2][2] >= 0)) /\ Len(e[4]) <= 1 THEN
